@@ -3,7 +3,7 @@ PROPS["C01"] = dict(
     props_file="Properties/C01.v",
     harnesses=[dict(cmd="verify", mod="root", model="Model.Verify", quick=300, thorough=8000, shard=75,
                     require=["op.vtoc", "op.skip", "op.lverify", "op.lverify.repeated", "op.lskip", "op.pf", "op.cache.real",
-                             "op.cache.stepwise", "op.pfstart.add", "op.pfstart.commit", "op.pfresume", "result.pfresume.aborted", "cache.mem", "cache.dir", "op.read.verified", "op.read.unverified", "op.probe",
+                             "op.cache.stepwise", "op.pfstart.add", "op.pfstart.write", "op.pfstart.commit", "op.pfstart.abort", "op.pfresume", "result.pfresume.aborted", "cache.mem", "cache.dir", "op.read.verified", "op.read.unverified", "op.probe",
                              "cor.none", "cor.flip", "cor.zero", "cor.replace", "cor.swap", "cor.tocdigest", "cor.tocreser", "cor.tocnodigest", "comp.gzip", "comp.zstd", "minchunk",
                              "fetch.pre", "fetch.err",
                              "result.VerifyTOC.ok", "result.VerifyTOC.err", "result.layer.Verify.ok", "result.layer.Verify.err",
@@ -12,8 +12,9 @@ PROPS["C01"] = dict(
          "(bit flip / zeroed tail of a member, member replaced by a validly compressed different payload of the same size, two members swapped, "
          "TOC re-serialised / chunk digest rewritten to match a replaced chunk / digests removed / other field changed), opened through "
          "metadata/memory + fs/reader (+ fs/layer layer object) with a memory or directory chunk cache; random histories of VerifyTOC(D|actual|other) / SkipVerify / "
-         "layer.Verify / layer.SkipVerify / readAndCache of one chunk / Cache() / OpenFile.ReadAt / cache probe / a prefetch goroutine stopped before or after its "
-         "RLock verification step while other calls run and resumed later (both orders of the handshake on the real code), ending with a re-read of every file "
+         "layer.Verify / layer.SkipVerify / readAndCache of one chunk / Cache() / OpenFile.ReadAt / cache probe / a prefetch goroutine stopped at any interaction with its "
+         "cache writer (before Add, at the first Write, before Commit, before Abort) while VerifyTOC / SkipVerify / reads run, resumed later (fixed corpus: every stop "
+         "point x genuine/altered chunk x VerifyTOC(D)/VerifyTOC(D'), plus random ones), ending with a re-read of every file "
          "through the warm cache; non-trivial = a read in verified mode or a failed operation; distinct = distinct (TOC, history, fetched bytes, outputs)",
     assumptions=[
         "SHA-256 is the uninterpreted function H of the proofs (no injectivity assumed: theorems say 'H of the bytes equals the recorded digest')",
